@@ -1687,7 +1687,42 @@ Definition c13_tie_pair (ud : list (pystr * pystr * pystr)) (ot : list (path * l
      (fun p i => g_DeepHash__skip_this RXS EX [] [] None None (render p ++ [cLB] ++ p_of_Z (Z.of_nat i) ++ [cRB]))
      c t1 t2),
    c13_case_v ud ot rxt rxht ex inc TY (tie_tbl cbo) (tie_tbl cbso) icbo icbso c t1 t2).
-""")
+(* WHICH generated function differs from its hand-written counterpart, and where: evaluated on the positions P / dict keys K
+   of one case, every function on the SAME (hand-normalised) option values *)
+Definition tie_where (rx_given : bool) (rxt : list path) (rxht : list (path * nat)) (exarg incarg : paths_arg) (ex inc : list pystr)
+    (TY : list ty) (cbo cbso icbo icbso : option (list value)) (P : list path) (K : list atom) (t1 t2 : value) : sx :=
+  let RXS := if rx_given then [fun s => tie_strs rxt s || tie_hit_strs rxht s] else [] in
+  let EX := add_root_to_paths ex in
+  let INC := add_root_to_paths inc in
+  let CB := option_map tbl_values cbo in let CBS := option_map tbl_values cbso in
+  let ICB := option_map tbl_values icbo in let ICBS := option_map tbl_values icbso in
+  let strs_eqb := fun a b : list pystr => sx_eqb (sx_list sx_str a) (sx_list sx_str b) in
+  let objs := fun p => [(sub t1 p, sub t2 p); (sub t1 p, None); (None, sub t2 p)] in
+  SL ((if strs_eqb (g_init_paths exarg) EX then [] else
+         [SL [SA "__init__/add_root_to_paths/convert_item_or_items_into_set_else_none: self.exclude_paths ="; sx_list sx_str (g_init_paths exarg);
+              SA "hand model:"; sx_list sx_str EX]])
+   ++ (if strs_eqb (g_init_paths incarg) INC then [] else
+         [SL [SA "__init__/add_root_to_paths/convert_item_or_items_into_set_else_none: self.include_paths ="; sx_list sx_str (g_init_paths incarg);
+              SA "hand model:"; sx_list sx_str INC]])
+   ++ flat_map (fun p => flat_map (fun ab =>
+         let g := g__skip_this RXS EX INC TY CB CBS ICB ICBS (mkLevel p (fst ab) (snd ab)) in
+         let h := skip_full (rx_of RXS) EX INC TY (cb_of CB) (cb_of CBS) ICB ICBS p (fst ab) (snd ab) in
+         if Bool.eqb g h then [] else
+           [SL [SA "DeepDiff._skip_this at level"; sx_str (render p); SA "t1 present:"; sx_bool (if fst ab then true else false);
+                SA "t2 present:"; sx_bool (if snd ab then true else false); SA "code says skip ="; sx_bool g; SA "hand model:"; sx_bool h]]) (objs p)) P
+   ++ flat_map (fun p => flat_map (fun k =>
+         let g := g__skip_this_key INC (mkLevel p None None) k in
+         let h := skip_this_key INC p k in
+         if Bool.eqb g h then [] else
+           [SL [SA "DeepDiff._skip_this_key at level"; sx_str (render p); SA "key"; sx_str (str_atom k); SA "code says skip ="; sx_bool g;
+                SA "hand model:"; sx_bool h]]) K) P
+   ++ flat_map (fun p => flat_map (fun i =>
+         let g := g_DeepHash__skip_this RXS EX [] [] None None (render p ++ [cLB] ++ p_of_Z (Z.of_nat i) ++ [cRB]) in
+         let h := hit_this (rxh_of RXS) EX p i in
+         if Bool.eqb g h then [] else
+           [SL [SA "DeepHash._skip_this on the set member pseudo-path"; sx_str (render p ++ [cLB] ++ p_of_Z (Z.of_nat i) ++ [cRB]);
+                SA "code says skip ="; sx_bool g; SA "hand model:"; sx_bool h]]) [0; 1; 2]) P).
+""").replace("Filter.FilterTie.\nFrom DDGen", "Filter.FilterVPath Filter.FilterTie.\nFrom DDGen")
 
 
 def coq_paths_arg(items, shape):
@@ -1812,7 +1847,7 @@ def tie_difference(ctx, cases, shard=120):
     """evaluate (generated run, hand-written run) inside Coq; -> (indices of the cases on which they differ, error or None)"""
     from concurrent.futures import ThreadPoolExecutor
     import os
-    ctx.ensure_built(HDR[:-1] + " Filter.FilterTie.")
+    ctx.ensure_built(HDR[:-1] + " Filter.FilterVPath Filter.FilterTie.")
     gen_dir = os.path.join(ctx.scratch, "srctie")
     files = []
     for k in range(0, len(cases), shard):
@@ -1838,6 +1873,55 @@ def tie_difference(ctx, cases, shard=120):
             if line.strip():
                 bad.append(k * shard + int(line.partition("\t")[0]))
     return sorted(bad), err
+
+
+def dict_keys_of(v):
+    if isinstance(v, dict):
+        for k, x in v.items():
+            yield k
+            yield from dict_keys_of(x)
+    elif isinstance(v, (list, tuple)):
+        for x in v:
+            yield from dict_keys_of(x)
+
+
+def tie_localise(ctx, t1, t2, opt):
+    """which of the generated functions differs from its hand-written counterpart on the positions / keys of this case (text)"""
+    import os
+    P = all_positions(t1, t2)
+    spec = Spec(P, opt.get("ex", ()), opt.get("rx", ()), opt.get("inc", ()))
+    hits = set_hits(t1, t2, opt, spec)[0]
+    sh = opt.get("shape") or {}
+    keys, seen = [], set()
+    for k in list(dict_keys_of(t1)) + list(dict_keys_of(t2)):
+        c = V.to_coq(k)
+        if c not in seen:
+            seen.add(c)
+            keys.append(c)
+
+    def otbl(k):
+        return "(Some %s)" % core.coq_list(cb_table(opt[k], t1, t2)) if opt.get(k) else "None"
+    expr = "tie_where %s %s %s %s %s %s %s %s %s %s %s %s %s %s %s %s" % (
+        core.coq_bool(bool(opt.get("rx"))), core.coq_list(D.coq_pathc(p) for p in spec.rx_table()),
+        core.coq_list("(%s, %d)" % (D.coq_pathc(p), i) for p, i in hits),
+        coq_paths_arg(opt.get("ex"), sh.get("ex")), coq_paths_arg(opt.get("inc"), sh.get("inc")),
+        core.coq_list(core.coq_pystr(x) for x in opt.get("ex", ())), core.coq_list(core.coq_pystr(x) for x in opt.get("inc", ())),
+        core.coq_list(TYPES[n][1] for n in opt.get("ty", ())), otbl("cb"), otbl("cbs"), otbl("icb"), otbl("icbs"),
+        core.coq_list(D.coq_pathc(p) for p in P),
+        core.coq_list("(match %s with VAtom a => a | _ => ANone end)" % c for c in keys), V.to_coq(t1), V.to_coq(t2))
+    fn = os.path.join(ctx.scratch, "tiewhere.v")
+    with open(fn, "w") as f:
+        f.write("From Coq Require Import List String ZArith NArith Bool.\nImport ListNotations.\nFrom DD Require Import Base.Sx.\n")
+        f.write(TIE_HDR + "\nLocal Open Scope string_scope.\nDefinition cases : list (sx * sx) := [(%s, SL [])].\n" % expr)
+        f.write("Eval vm_compute in run_cases cases.\n")
+    rc, out = core.sh(["coqc", "-Q", core.THEORIES, "DD", "-Q", os.path.join(ctx.scratch, "srctie"), "DDGen", fn], timeout=600, cwd=ctx.scratch)
+    m = re.search(r'"BEGIN\n(.*)END"', out, re.S)
+    if rc != 0 or not m:
+        return "localisation failed: " + out[-400:]
+    txt = m.group(1).replace('""', '"').strip()
+    if not txt:
+        return "each generated function agrees with its hand-written counterpart on the positions and keys of this case (the runs differ through arguments the case does not enumerate)"
+    return txt.partition("\t")[2][:3000]
 
 
 def judge_case(ctx, case, name, quiet=True):
@@ -1900,16 +1984,19 @@ def on_source_tie_break(ctx, name, rec):
     if err:
         info["coq_error"] = err
     judged = []
+    if bad:
+        info["first_differing_configuration"] = case_dict(*cases[bad[0]])
+        info["first_difference_localised"] = tie_localise(ctx, *cases[bad[0]])
     for i in bad[:6]:
         t1, t2, opt = cases[i]
         case = case_dict(t1, t2, opt)
-        nf, nb = len(ctx.failures) + len(ctx.known_seen), len(ctx.breaks)
+        nf, nb = len(ctx.failures), len(ctx.breaks)
         v = judge_case(ctx, case, "c13_tie_%d" % i)
         v["case"] = case
         judged.append(v)
-        if len(ctx.failures) + len(ctx.known_seen) > nf and len(ctx.failures) > 0 or len(ctx.breaks) > nb:
-            if len(ctx.failures) or len(ctx.breaks) > nb:
-                break
+        if len(ctx.failures) > nf or len(ctx.breaks) > nb:
+            info["found"] = True  # judged like any generated case: a property failure or a model / implementation disagreement
+            break
     info["judged"] = judged[:6]
     if bad and not judged:
         info["note"] = "differing cases found but none judged"
@@ -1919,7 +2006,9 @@ def on_source_tie_break(ctx, name, rec):
 # --------------------------------------------------------------------------
 def run(ctx):
     # a source tie that is not intact escalates the streams that exercise the translated fragment to their thorough size
-    big = ctx.thorough or ctx.tie_broken("skipthis")
+    # (unless the differencing hook already put a concrete failing input on record: the search has then met its goal)
+    found = bool((ctx.source_ties.get("skipthis", {}).get("search") or {}).get("found"))
+    big = ctx.thorough or (ctx.tie_broken("skipthis") and not found)
     npairs = 3000 if big else 400
     nopts = 10 if big else 8
     nw = core.NCPU
